@@ -125,6 +125,7 @@ func outputFaults(e *env) []func() {
 						map[string]any{"argv": c.Argv, "stdout": dest})
 				} else {
 					r.Count("failed_destination_reported", 1)
+					r.SampleN("dest:"+dest, 1, map[string]any{"case": desc, "argv": argvString(c.Argv[1:]), "exit": res.Exit, "stderr": string(mon.Trunc(res.Stderr, 120))})
 				}
 				_ = key
 			})
@@ -206,6 +207,7 @@ func outputFaults(e *env) []func() {
 				left, _ := os.ReadFile(outPath)
 				if k < B {
 					r.Count("fsize_faults_fired", 1)
+					r.SampleN("fsize", 2, map[string]any{"case": desc, "exit": res.Exit, "signal": res.Signal, "bytes_left_on_disk": len(left)})
 					if res.Exit == 0 {
 						r.Violate(fmt.Sprintf("exit0-truncated-output:%s:armor=%v", o.name, o.armored),
 							fmt.Sprintf("%s: exit 0 with %d of %d bytes on disk", desc, len(left), B), map[string]any{"argv": argv, "fsize": k})
@@ -262,6 +264,7 @@ func outputFaults(e *env) []func() {
 					continue
 				}
 				r.Count("strace_faults_fired", 1)
+				r.SampleN("strace", 2, map[string]any{"case": desc, "exit": res.Exit})
 				r.Tab("strace_injection", strings.Fields(in.what)[0][:5]+":"+strings.Fields(in.what)[1])
 				if res.Exit == 0 {
 					cls := "write"
@@ -369,6 +372,7 @@ func damagedInputs(e *env) []func() {
 									fmt.Sprintf("%s: decryption was refused at the header but -o changed: before %+v after %+v", desc, before, after), replay)
 							} else {
 								r.Count("header_refusals_output_untouched", 1)
+								r.SampleN("hdr-refusal", 1, map[string]any{"case": desc, "exit": res.Exit, "output_before": before.exists, "output_after": after.exists, "unchanged": before == after})
 							}
 						} else {
 							left, _ := os.ReadFile(outPath)
